@@ -687,6 +687,7 @@ func c17dialRun(cs string) string {
 	e := &c17e
 	kind := c17serverKind(scheme)
 	quicLike := c17quicBased(scheme)
+	udpLike := scheme == "" || scheme == "none" || scheme == "udp" // two legs: udp, then tcp after a TC=1 reply
 	livePort := e.ports[kind]
 	liveUnix := e.unix[kind]
 	sub := func(s string) string {
@@ -715,6 +716,7 @@ func c17dialRun(cs string) string {
 	var mu sync.Mutex
 	seen := map[string]bool{}
 	cache := &c17sessCache{keys: map[string]bool{}}
+	udpLive := map[string]bool{} // addresses of this case's truncating UDP servers
 	ctl := func(network, address string, c syscall.RawConn) error {
 		_, p, err := net.SplitHostPort(address)
 		if err == nil && (p == "0" || p == "") {
@@ -723,8 +725,11 @@ func c17dialRun(cs string) string {
 		mu.Lock()
 		seen[network+"|"+unsub(address)] = true
 		mu.Unlock()
-		if network == "unix" || (err == nil && p == strconv.Itoa(livePort) && strings.HasPrefix(network, "tcp")) {
+		if network == "unix" || (err == nil && p == strconv.Itoa(livePort) && strings.HasPrefix(network, "tcp") && !udpLike) {
 			return nil
+		}
+		if strings.HasPrefix(network, "udp") && udpLive[address] {
+			return nil // reaches the harness' UDP server, which answers TC=1
 		}
 		return errors.New("aborted by the harness")
 	}
@@ -734,8 +739,8 @@ func c17dialRun(cs string) string {
 	// free on all candidate addresses right now.
 	hit := make(chan struct{}, 64)
 	var sinks []net.PacketConn
-	if quicLike {
-		if c17sinkLock != nil {
+	if quicLike || udpLike {
+		if c17sinkLock != nil && quicLike {
 			syscall.Flock(int(c17sinkLock.Fd()), syscall.LOCK_EX)
 			defer syscall.Flock(int(c17sinkLock.Fd()), syscall.LOCK_UN)
 		}
@@ -767,6 +772,31 @@ func c17dialRun(cs string) string {
 			if live {
 				name = network + "|" + netip.AddrPortFrom(ap.Addr(), 0).String()
 				name = strings.TrimSuffix(name, "0") + "PORT"
+			}
+			if udpLike {
+				// a udp upstream: the Control callback sees the dial; this server makes the upstream go on
+				// to its TCP leg by answering every query with TC=1
+				udpLive[ap.String()] = true
+				go func() {
+					buf := make([]byte, 4096)
+					for {
+						n, from, err := pc.ReadFrom(buf)
+						if err != nil {
+							return
+						}
+						q := new(dns.Msg)
+						if q.Unpack(buf[:n]) != nil {
+							continue
+						}
+						r := new(dns.Msg)
+						r.SetReply(q)
+						r.Truncated = true
+						if b, err := r.Pack(); err == nil {
+							pc.WriteTo(b, from)
+						}
+					}
+				}()
+				return
 			}
 			go func() {
 				buf := make([]byte, 2048)
@@ -825,9 +855,11 @@ func c17dialRun(cs string) string {
 		}
 		ports := map[int]bool{}
 		for _, p := range numPorts {
-			ports[p] = true
+			if quicLike {
+				ports[p] = true
+			}
 		}
-		if e.lowPort {
+		if e.lowPort && quicLike {
 			for _, p := range []int{53, 80, 443, 853} {
 				ports[p] = true
 			}
